@@ -854,6 +854,10 @@ def ptcp_early_data(evs):
 PTCP_CORPUS = [('dataK1 seed,907270985 agent,0,0,0,2,10.0.0.1 agent,1,0,1,3,10.0.1.1 stream,0,2 stream,1,2 net,0.3,0,1,5,3 gather,0,1 gather,1,1 cands,0,1,1,2 run,60 cands,1,0,1,1 run,20 cands,1,0,1,2 creds,1,0,1 creds,0,1,1 run,20 cands,0,1,1,1 run,20 run,8000 sendstream,1,1,2,63488,79 run,1 sendstream,0,1,1,63489,62 run,300 sendstream,0,1,1,4096,153 run,1 sendstream,0,1,2,102432,91 run,1 sendstream,0,1,1,1200,0 run,300 sendstream,0,1,2,63487,165 sendstream,1,1,2,100,181 run,300 run,60000 streamhash,0,1,1 streamhash,0,1,2 streamhash,1,1,1 streamhash,1,1,2 state,0,1,1 selected,0,1,1 state,0,1,2 selected,0,1,2 state,1,1,1 selected,1,1,1 state,1,1,2 selected,1,1,2', {"kind": "data-reliable", "ncomp": 2, "drop": 0.3})]
 
 
+# regression scenario for fix 3f3d63f (a zero-length buffer in the receive layout of a reliable agent closed the pseudo-TCP connection)
+PULL_CORPUS = [('dataK2 seed,409004122 agent,0,0,0,2,10.0.0.1 agent,1,0,1,2,10.0.1.1 stream,0,2 stream,1,2 net,0,0,5,5,3 gather,0,1 gather,1,1 cands,1,0,1,2 creds,0,1,1 cands,1,0,1,1 creds,1,0,1 run,60 cands,0,1,1,1 cands,0,1,1,2 run,8000 pull,0,1,2,21.0.8.65536 pull,1,1,1,0.3.19.65537 sendstream,0,1,1,1200,46 sendstream,1,1,2,63489,7 run,300 sendstream,0,1,1,20,208 run,60000 streamhash,0,1,1 streamhash,0,1,2 streamhash,1,1,1 streamhash,1,1,2 state,0,1,1 selected,0,1,1 state,0,1,2 selected,0,1,2 state,1,1,1 selected,1,1,1 state,1,1,2 selected,1,1,2', {"kind": "data-reliable", "ncomp": 2, "drop": 0, "pull": 2})]
+
+
 def sim_oracle(line, evs, meta):
     r = sc.oracle_data_full(evs, meta)
     if r and r.startswith("reliable mode: the ") and "are not the first" in r and ptcp_early_data(evs):
@@ -866,7 +870,7 @@ def run(chk):
     tcp_part(chk)
     spin_probe(chk)
     n = 200 if chk.tier == "quick" else 12000
-    cases = [sc.gen_data(chk.rng, i) for i in range(n)] + PTCP_CORPUS
+    cases = [sc.gen_data(chk.rng, i) for i in range(n)] + PTCP_CORPUS + PULL_CORPUS
     sc.run_sim(chk, cases, sim_oracle, "sim-C02", compare=False)
     return chk.finish(**FINISH)
 
